@@ -91,70 +91,71 @@ let register () =
   Registry.register "c06.rtsp" (rtsp_op RemuxRtmp2Rtp.run_rtsp);
   Registry.register "c06.e2e" (function
       | [cf; evs] ->
-        let (frag_ms, hls, rtsp) = match String.split_on_char ':' cf with
-          | [a; b; c] -> (z_of_token a, b = "1", c = "1") | _ -> failwith "bad cfg" in
+        let (frag_ms, hls, rtsp, wk, tsgop) = match String.split_on_char ':' cf with
+          | [a; b; c] -> (z_of_token a, b = "1", c = "1", false, 0)
+          | [a; b; c; d; e] -> (z_of_token a, b = "1", c = "1", d = "1", int_of_string e)
+          | _ -> failwith "bad cfg" in
         let c = { HlsMuxer.c_stream = [byte_tab.(Char.code 's')]; c_ms = frag_ms; c_num = z_of_int 1000;
                   c_thr = z_of_int 1000; c_mode = z_of_int 0 } in
         let items = if evs = "-" then [] else String.split_on_char ';' evs in
-        (* ---- TS side: the group model *)
-        let gev = Stdlib.List.map (fun it ->
+        let fev = Stdlib.List.map (fun it ->
             match String.split_on_char ':' it with
-            | ["M"; ty; ts; p] -> RemuxGroup.GMsg (mk_msg ty ts p)
-            | ["I"; _; _; p] -> RemuxGroup.GMsg (mk_msg "18" "0" p)
-            | ["Jt"; id] -> RemuxGroup.GJoinTs (n_of_token id)
-            | ["Jr"; _] -> RemuxGroup.GNop
+            | ["M"; ty; ts; p] -> RemuxFanout.FMsg (mk_msg ty ts p)
+            | ["I"; ac; rate; p] -> RemuxFanout.FMeta (opt_n ac, opt_z rate, mk_msg "18" "0" p)
+            | ["Jt"; id] -> RemuxFanout.FJoinTs (n_of_token id)
+            | ["Jr"; id] -> RemuxFanout.FJoinRtsp (n_of_token id)
             | _ -> failwith "bad event") items in
-        let g = RemuxGroup.group_run c hls gev in
-        let subs = Stdlib.List.sort (fun a b -> compare (int_of_n a.RemuxGroup.u_id) (int_of_n b.RemuxGroup.u_id)) g.RemuxGroup.g_subs in
-        let parts = ref (Stdlib.List.map (fun u ->
-            Printf.sprintf "ts%d=%s" (int_of_n u.RemuxGroup.u_id) (hex_of_bytes u.RemuxGroup.u_out)) subs) in
+        (* the remuxers and hls.Muxer produce the history; the fan-out model of C01 / C02 runs on it *)
+        let (g, outs) = RemuxFanout.fan_outs b64_enc hex_enc tool c rtsp hls fev in
+        let cons = RemuxFanout.fan_consumers (RemuxFanout.fan_cfg (nat_of_int tsgop) wk) outs in
+        let cons = Stdlib.List.sort (fun ((a, _), _) ((b, _), _) -> compare (int_of_n a) (int_of_n b)) cons in
+        let parts = ref [] in
+        Stdlib.List.iter (fun ((id, k), its) ->
+            match k with
+            | GroupFanout.KTs ->
+              let b = Stdlib.List.concat (Stdlib.List.map (function
+                  | RemuxFanout.ITs b | RemuxFanout.IPat b -> b | _ -> []) its) in
+              parts := !parts @ [Printf.sprintf "ts%d=%s" (int_of_n id) (hex_of_bytes b)]
+            | _ -> ()) cons;
         (match g.RemuxGroup.g_hls with
          | None -> ()
          | Some h ->
-           (* segment files in creation order, contents from the Write operations *)
-           let order = ref [] and content = Hashtbl.create 16 in
-           Stdlib.List.iter (function
-               | HlsFs.OCreate (HlsFs.PTs (n, i)) -> order := (n, i) :: !order; Hashtbl.replace content (n, i) (Buffer.create 1024)
-               | HlsFs.OWrite (HlsFs.PTs (n, i), b) ->
-                 (match Hashtbl.find_opt content (n, i) with Some buf -> Buffer.add_string buf (hex_of_bytes b) | None -> ())
-               | _ -> ()) h.RemuxGroup.h_ops;
-           let segs = Stdlib.List.rev_map (fun k ->
-               let s = Buffer.contents (Hashtbl.find content k) in if s = "" then "-" else s) !order in
-           parts := !parts @ ["hls=" ^ (if segs = [] then "none" else String.concat "," segs)]);
-        (* ---- RTSP side: subscribers attach as soon as the SDP exists, after the message that produced it *)
-        if rtsp then begin
-          let st = ref RemuxRtmp2Rtp.r2r_init and sdp = ref None in
-          let pending = ref [] and playing = ref [] in   (* (id, packets ref, first seq per track) *)
-          let attach () =
-            match !sdp with
-            | None -> ()
-            | Some raw ->
-              Stdlib.List.iter (fun id -> playing := !playing @ [(id, raw, ref [], Hashtbl.create 2)]) !pending;
-              pending := [] in
-          Stdlib.List.iter (fun it ->
-              (match String.split_on_char ':' it with
-               | ["M"; _; _; _] | ["I"; _; _; _] ->
-                 let (s', outs) = RemuxRtmp2Rtp.feed_rtmp_msg b64_enc hex_enc tool true !st (parse_rin it) in
-                 st := s';
-                 Stdlib.List.iter (function
-                     | RemuxRtmp2Rtp.RSdp r -> sdp := Some (match r with Some b -> b | None -> [])
-                     | RemuxRtmp2Rtp.RRtp (audio, p) ->
-                       Stdlib.List.iter (fun (_, _, pk, first) ->
-                           let f = match Hashtbl.find_opt first audio with
-                             | Some f -> f | None -> Hashtbl.replace first audio (int_of_n p.RtpPacker.rp_seq); int_of_n p.RtpPacker.rp_seq in
-                           let rel = (int_of_n p.RtpPacker.rp_seq - f) land 0xffff in
-                           let p' = { p with RtpPacker.rp_seq = n_of_int rel; rp_ssrc = n_of_int 0 } in
-                           pk := !pk @ [Printf.sprintf "%d.%s" (if audio then 2 else 0) (hex_of_bytes (RtpPacker.rtp_raw p'))]) !playing) outs
-               | ["Jr"; id] -> pending := !pending @ [int_of_token id]
-               | _ -> ());
-              attach ()) items;
-          let all = Stdlib.List.map (fun (id, raw, pk, _) -> (id, Some raw, !pk)) !playing
-                    @ Stdlib.List.map (fun id -> (id, None, [])) !pending in
-          let all = Stdlib.List.sort (fun (a, _, _) (b, _, _) -> compare a b) all in
-          Stdlib.List.iter (fun (id, raw, pk) ->
-              parts := !parts @ [Printf.sprintf "sdp%d=%s" id (match raw with Some b -> hex_of_bytes b | None -> "-");
-                                 Printf.sprintf "rtp%d=%s" id (if pk = [] then "none" else String.concat "," pk)]) all
-        end;
+           (* every call hls.Muxer made on the file system layer, in order (segment writes, play lists, renames) *)
+           let ops = h.RemuxGroup.h_ops in
+           parts := !parts @ ["hlsops=" ^ (if ops = [] then "none" else String.concat ";" (Stdlib.List.map (Drv_c10.show_op c) ops))]);
+        (* RTSP players: the SDP, then the packets with the sequence numbers relative to the first one of
+           the track and the SSRC zeroed (both random in lal); players that never got an SDP last *)
+        let rtsp_parts = ref [] in
+        Stdlib.List.iter (fun ((id, k), its) ->
+            match k with
+            | GroupFanout.KRtsp ->
+              let sdp = ref "-" and pk = ref [] and first = Hashtbl.create 2 in
+              Stdlib.List.iter (function
+                  | RemuxFanout.ISdp b -> sdp := hex_of_bytes b
+                  | RemuxFanout.IRtp (audio, raw) ->
+                    let a = Array.of_list (Stdlib.List.map int_of_n raw) in
+                    let seq = (a.(2) lsl 8) lor a.(3) in
+                    let f = match Hashtbl.find_opt first audio with
+                      | Some f -> f | None -> Hashtbl.replace first audio seq; seq in
+                    let rel = (seq - f) land 0xffff in
+                    a.(2) <- rel lsr 8; a.(3) <- rel land 255;
+                    a.(8) <- 0; a.(9) <- 0; a.(10) <- 0; a.(11) <- 0;
+                    pk := !pk @ [Printf.sprintf "%d.%s" (if audio then 2 else 0)
+                                   (hex_of_bytes (Stdlib.List.map (fun x -> byte_tab.(x)) (Array.to_list a)))]
+                  | _ -> ()) its;
+              rtsp_parts := !rtsp_parts @ [(int_of_n id, !sdp, !pk)]
+            | _ -> ()) cons;
+        (* players still waiting for an SDP when the publisher left are no consumers of the group *)
+        Stdlib.List.iter (fun it ->
+            match String.split_on_char ':' it with
+            | ["Jr"; id] ->
+              let id = int_of_token id in
+              if not (Stdlib.List.exists (fun (i, _, _) -> i = id) !rtsp_parts) then rtsp_parts := !rtsp_parts @ [(id, "-", [])]
+            | _ -> ()) items;
+        Stdlib.List.iter (fun (id, sdp, pk) ->
+              parts := !parts @ [Printf.sprintf "sdp%d=%s" id sdp;
+                                 Printf.sprintf "rtp%d=%s" id (if pk = [] then "none" else String.concat "," pk)])
+          (Stdlib.List.sort (fun (a, _, _) (b, _, _) -> compare a b) !rtsp_parts);
         if !parts = [] then "-" else String.concat "|" !parts
       | _ -> "bad-args");
   (* the pinned tree (Opus packer at the metadata rate); model side only *)
